@@ -183,6 +183,14 @@ fn hostile_message(idx: usize, rng: &mut Rng) -> Option<(u8, u32, Vec<u8>, Strin
         for _ in 0..depth {
             b.extend_from_slice(if i % 4 < 2 { &[10, 0, 0, 0, 1] } else { &[3, 0, 1, b'a'] });
         }
+        // lying element counts / lengths (nothing may be allocated on the strength of a declared count)
+        if i % 5 == 0 {
+            b.extend_from_slice(&[10, 0, 0x10, 0, 0]);
+        } else if i % 5 == 1 {
+            b.extend_from_slice(&[10, 0xFF, 0xFF, 0xFF, 0xFF, 5]);
+        } else if i % 5 == 2 {
+            b.extend_from_slice(&[8, 0xFF, 0xFF, 0xFF, 0xFF, 0, 1, b'a', 10, 0x7F, 0xFF, 0xFF, 0xFF]);
+        }
         let tail = rng.below(9) as usize;
         b.extend(rng.bytes(tail));
         return Some(([20u8, 18, 17, 15][i % 4], 0, b, format!("amfgarbage:{}", i)));
@@ -371,6 +379,19 @@ fn hostile_stream(class: usize, rng: &mut Rng) -> (Vec<u8>, String) {
             for _ in 0..50 { b.push(0xC4); b.extend_from_slice(&[0xFF, 0xFF, 0xFF, 0xFF]); }
             (b, "zero-length-fmt3-run".into())
         }
+        7 => {
+            // chunk stream ids at the edges of the 1-, 2- and 3-byte forms (incl. 65536 .. 65599)
+            let mut b = Vec::new();
+            for &c in [63u32, 64, 65, 319, 320, 321, 65535, 65536, 65537, 65598, 65599].iter() {
+                let v = c.saturating_sub(64);
+                if c < 64 { b.push(c as u8); } else if c < 320 && rng.chance(1, 2) { b.extend_from_slice(&[0, v as u8]); } else { b.extend_from_slice(&[1, (v & 0xFF) as u8, (v >> 8) as u8]); }
+                b.extend_from_slice(&[0, 0, 5, 0, 0, 3, 9, 1, 0, 0, 0, 7, 7, 7]);
+                // and a compressed follow-up on the same csid
+                if c < 64 { b.push(0xC0 | c as u8); } else { b.extend_from_slice(&[0xC1, (v & 0xFF) as u8, (v >> 8) as u8]); }
+                b.extend_from_slice(&[8, 8, 8]);
+            }
+            (b, "csid-form-edges".into())
+        }
         _ => {
             // a valid library-made stream with a few byte mutations
             let mut ser = ChunkSerializer::new();
@@ -461,6 +482,27 @@ fn run_case(c: &Value) -> (String, usize, Value) {
                     }
                 }
                 "flat" => vec![c["byte"].as_u64().unwrap_or(5) as u8; c["len"].as_u64().unwrap_or(1) as usize],
+                "siblings" => {
+                    // many sibling containers, each declaring a large count / length and holding (almost) nothing
+                    let cnt = (c["count"].as_u64().unwrap_or(1024) as u32).to_be_bytes();
+                    let n = c["n"].as_u64().unwrap_or(1000) as usize;
+                    let mut b = Vec::with_capacity(n * 8);
+                    for _ in 0..n {
+                        match c["kind"].as_str().unwrap_or("array") {
+                            "array" => { b.push(10); b.extend_from_slice(&cnt); b.push(9); }
+                            "ecma" => { b.push(8); b.extend_from_slice(&cnt); b.extend_from_slice(&[0, 0, 9]); }
+                            _ => { b.extend_from_slice(&[3, 0, 0, 9]); }
+                        }
+                    }
+                    b
+                }
+                "marker" => {
+                    // every marker byte followed by a large declared length / count
+                    let mut b = vec![c["byte"].as_u64().unwrap_or(0) as u8];
+                    b.extend_from_slice(&(c["count"].as_u64().unwrap_or(0) as u32).to_be_bytes());
+                    b.extend_from_slice(&[1, 2, 3, 4, 5, 6, 7, 8]);
+                    b
+                }
                 _ => {
                     // random garbage built from markers
                     let n = c["len"].as_u64().unwrap_or(100) as usize;
@@ -711,20 +753,23 @@ fn run_cfg(cfg: &str, entry: &str, v: u32, n: usize) -> (String, bool) {
             }
             ("payload_len", _) => {
                 let mut ser = ChunkSerializer::new();
-                let _ = ser.set_max_chunk_size(1 << 20, RtmpTimestamp::new(0));
+                let cs = if v == 0 { 1 << 20 } else { v };
+                let _ = ser.set_max_chunk_size(cs, RtmpTimestamp::new(0));
                 let m = MessagePayload { timestamp: RtmpTimestamp::new(0), type_id: 9, message_stream_id: 1, data: Bytes::from(vec![1u8; n]) };
                 match ser.serialize(&m, false, false) {
                     Err(_) => ("err".into(), false),
                     Ok(p) => {
                         let mut de = ChunkDeserializer::new();
-                        let _ = de.set_max_chunk_size(1 << 20);
+                        let _ = de.set_max_chunk_size(cs as usize);
                         let got = de.get_next_message(&p.bytes);
                         ("ok".into(), matches!(got, Ok(Some(ref x)) if x.data.len() == n))
                     }
                 }
             }
             ("string_len", _) => {
-                let v = vec![Amf0Value::Utf8String("s".repeat(n))];
+                // v = 1: the same BYTE length made of two-byte characters (limits are in bytes, not characters)
+                let st = if v == 1 { "\u{e9}".repeat(n / 2) } else { "s".repeat(n) };
+                let v = vec![Amf0Value::Utf8String(st)];
                 match rml_amf0::serialize(&v) {
                     Err(_) => ("err".into(), false),
                     Ok(b) => ("ok".into(), rml_amf0::deserialize(&mut std::io::Cursor::new(b)).map(|x| x == v).unwrap_or(false)),
@@ -732,7 +777,7 @@ fn run_cfg(cfg: &str, entry: &str, v: u32, n: usize) -> (String, bool) {
             }
             ("name_len", _) => {
                 let mut p = HashMap::new();
-                p.insert("k".repeat(n), Amf0Value::Null);
+                p.insert(if v == 1 { "\u{e9}".repeat(n / 2) } else { "k".repeat(n) }, Amf0Value::Null);
                 let v = vec![Amf0Value::Object(p)];
                 match rml_amf0::serialize(&v) {
                     Err(_) => ("err".into(), false),
@@ -831,6 +876,19 @@ pub fn cases(kind: &str, tier: &str, seed: u64) -> Vec<Value> {
             for &(b, l) in [(5u64, 1000u64), (5, 1 << 20), (10, 1 << 20), (3, 1 << 20), (0, 1 << 20), (2, 1 << 20)].iter() {
                 v.push(json!({"t":"amf","shape":"flat","byte":b,"len":l}));
             }
+            for kind in ["array", "ecma", "object"].iter() {
+                for &c in [1024u64, 65536, 1 << 24, 0xFFFFFFFF].iter() {
+                    for &n in [200u64, 2000, 20000].iter() {
+                        if *kind == "object" && c != 1024 { continue; }
+                        v.push(json!({"t":"amf","shape":"siblings","kind":kind,"count":c,"n":n}));
+                    }
+                }
+            }
+            for m in 0..256u64 {
+                for &c in [0x04000000u64, 0xFFFFFFFF, 0x00010000].iter() {
+                    v.push(json!({"t":"amf","shape":"marker","byte":m,"count":c}));
+                }
+            }
             if thorough {
                 v.push(json!({"t":"amf","shape":"flat","byte":5,"len":16777215}));
                 v.push(json!({"t":"amf","shape":"flat","byte":1,"len":16777215}));
@@ -842,8 +900,8 @@ pub fn cases(kind: &str, tier: &str, seed: u64) -> Vec<Value> {
         "hostile" => {
             let reps = if thorough { 6 } else { 1 };
             for _ in 0..reps {
-                for class in 0..7u64 {
-                    let n = if class == 6 { if thorough { 3000 } else { 400 } } else if class == 4 { 200 } else { 12 };
+                for class in 0..9u64 {
+                    let n = if class == 8 { if thorough { 3000 } else { 400 } } else if class == 4 { 200 } else if class == 7 { 4 } else { 12 };
                     for _ in 0..n {
                         for cut in 0..3u64 {
                             if class == 3 && cut == 1 { continue; }
@@ -888,12 +946,18 @@ pub fn cases(kind: &str, tier: &str, seed: u64) -> Vec<Value> {
             for &x in [0u32, 1, 1 << 31, 0xFFFFFFFF].iter() {
                 v.push(json!({"t":"cfg","cfg":"bandwidth","entry":"server.config","value":x}));
             }
-            for &n in [0u64, 1, 16777214, 16777215, 16777216, 16777217].iter() {
-                v.push(json!({"t":"cfg","cfg":"payload_len","entry":"ser.serialize","n":n}));
+            for &cs in [0u64, 16777215, 16777216, 0x7FFFFFFF].iter() {
+                for &n in [0u64, 1, 16777214, 16777215, 16777216, 16777217].iter() {
+                    v.push(json!({"t":"cfg","cfg":"payload_len","entry":"ser.serialize","n":n,"value":cs}));
+                }
             }
             for &n in [0u64, 1, 65534, 65535, 65536, 70000].iter() {
                 v.push(json!({"t":"cfg","cfg":"string_len","entry":"amf0.serialize","n":n}));
                 v.push(json!({"t":"cfg","cfg":"name_len","entry":"amf0.serialize","n":n}));
+            }
+            for &n in [2u64, 65534, 65536, 80000, 131070].iter() {
+                v.push(json!({"t":"cfg","cfg":"string_len","entry":"amf0.serialize","n":n,"value":1}));
+                v.push(json!({"t":"cfg","cfg":"name_len","entry":"amf0.serialize","n":n,"value":1}));
             }
             for &n in [0u64, 1, 65535, 65536].iter() {
                 v.push(json!({"t":"cfg","cfg":"version","entry":"server.config","n":n}));
@@ -924,7 +988,7 @@ pub fn parent(kind: &str, tier: &str, seed: u64, shard: u64, nshards: u64, out: 
     let exe = std::env::current_exe().unwrap();
     let mut next = 0usize;
     let mut died = 0usize;
-    let case_limit = Duration::from_secs(if tier == "thorough" { 120 } else { 60 });
+    let case_limit = Duration::from_secs(if tier == "thorough" { 120 } else { 30 });
     while next < mine.len() {
         let mut ch = std::process::Command::new(&exe).arg("res-child").arg(&cases_path).arg(format!("{}", next))
             .stdout(std::process::Stdio::piped()).stderr(std::process::Stdio::null()).spawn().expect("spawn child");
